@@ -27,6 +27,7 @@ func (c *Collection) vacuum(ctx context.Context, interval time.Duration) {
 					}
 				})
 			})
+			verifPoint("vacuum.pass", c, 0)
 		}
 	}
 }
